@@ -42,7 +42,7 @@ impl<P, T> PrefixMap<P, T> {
                 })
                 .collect(),
             free: self.free.clone(),
-            count: self.count,
+            count: self.table.count(),
         }
     }
 }
